@@ -20,7 +20,7 @@ func init() {
 		Random:      c17Random,
 		RandomCount: func(tier string) int { return map[string]int{"quick": 600, "thorough": 300000}[tier] },
 		Eval:        c17Eval,
-		Rule: "CLOCK CLAUSE ONLY (the math built-ins are pure functions and not covered). programs = 1..6 ক্লক() calls whose values are printed at once, stored and printed later, or taken inside a loop / function; schedule = simulated wall clock: start in {0, +-1 s, 1e6, today, year 2250, year 1700 (negative), ...} +- offset, per-read step in {0, 1 ms, 999 ms, 1 s, hours, backward jump, random}, sub-ms fraction; oracle = k-th printed value within 1 s of the simulated instant of the k-th clock read, one read per call, ক্লক(1) is a runtime error. " +
+		Rule: "CLOCK CLAUSE ONLY (the math built-ins are pure functions and not covered). programs = 1..6 ক্লক() calls whose values are printed at once, stored and printed later, or taken inside a loop / function; schedule = simulated wall clock: start in {0, +-1 s, 1e6, today, year 2250, year 1700 (negative), ...} +- offset, per-read step in {0, 1 ms, 999 ms, 1 s, hours, backward jump, random}, sub-ms fraction; some schedules also let simulated time pass with every executed step; oracle = the value of each ক্লক() call is within 1 s of the simulated wall clock at the moment of the call or of a reading taken during the call (how often an implementation reads the clock is its own business), a later instant never reads as an earlier time, ক্লক(1) is a runtime error. " +
 			"distinct_nontrivial counts distinct (program shape, clock start, step vector) triples with at least one non-default step.",
 		DistinctSet: "c17_clock_scripts",
 		Assumptions: []string{
@@ -47,7 +47,11 @@ func c17Program(s Src) (prog string, order []int, ncalls int, shape string) {
 	var stored []int
 	var sh []string
 	for i := 0; i < n; i++ {
-		switch s.Int("item", 0, 5) {
+		switch s.Int("item", 0, 6) {
+		case 6:
+			// time passes while the program computes (when the schedule lets steps take time)
+			ls = append(ls, fmt.Sprintf("%s (%s b%d = 0; b%d < %d; b%d = b%d + 1) { }", KwFor, KwVar, i, i, s.Int("busy", 1, 300), i, i))
+			sh = append(sh, "work")
 		case 0, 1:
 			ls = append(ls, fmt.Sprintf("%s %s();", KwPrint, FnClock))
 			order = append(order, ncalls)
@@ -206,19 +210,57 @@ func c17Eval(cs *Case, ctx *EvalCtx) []Violation {
 		}
 		return vs
 	}
-	var nows []int64
-	for _, e := range o.Res.Events {
-		if e.Kind == "NOW" {
-			nows = append(nows, e.N)
-		}
-	}
 	if cs.Kind != "clock-repl" && (o.FirstErr >= 0 || o.ExitStatus() != 0) {
 		add("unexpected-diagnostic", fmt.Sprintf("exit=%d stderr=%q", o.ExitStatus(), o.Stderr))
 		return vs
 	}
-	if len(nows) != ex.Calls {
-		add("clock-reads", fmt.Sprintf("%d ক্লক() calls but the wall clock was read %d times", ex.Calls, len(nows)))
-		return vs
+	// For every ক্লক() call: the simulated wall clock at the moment of the call and every
+	// reading of it taken while the call was in progress. How many readings an
+	// implementation takes, and when (at start-up, per call, twice per call), is its own
+	// business; the value it returns must be the current time.
+	type callRef struct {
+		at    int64   // wall clock (ms) when the built-in was entered
+		reads []int64 // wall-clock readings taken during the call
+	}
+	var refs []callRef
+	open := false
+	for _, e := range o.Res.Events {
+		switch e.Kind {
+		case "BUILTIN":
+			refs = append(refs, callRef{at: e.N})
+			open = true
+		case "NOW":
+			if open {
+				refs[len(refs)-1].reads = append(refs[len(refs)-1].reads, e.N)
+			}
+		case "OUT", "ERR", "EXIT", "READ":
+			open = false
+		}
+	}
+	if len(refs) != ex.Calls {
+		// no call events (the built-ins are not dispatched through a Call method any more):
+		// fall back to "the k-th reading belongs to the k-th call" if that is at least consistent
+		var all []int64
+		for _, e := range o.Res.Events {
+			if e.Kind == "NOW" {
+				all = append(all, e.N)
+			}
+		}
+		if len(all) != ex.Calls {
+			fatal2("C17: cannot attribute %d clock readings / %d built-in calls to the %d ক্লক() calls of the program", len(all), len(refs), ex.Calls)
+		}
+		refs = nil
+		for _, n := range all {
+			refs = append(refs, callRef{at: n, reads: []int64{n}})
+		}
+	}
+	// nows[k]: the instant call k is held to (its last reading, or the moment of the call if it took none)
+	nows := make([]int64, len(refs))
+	for k, r := range refs {
+		nows[k] = r.at
+		if len(r.reads) > 0 {
+			nows[k] = r.reads[len(r.reads)-1]
+		}
 	}
 	stdout := o.Stdout
 	if cs.Kind == "clock-repl" {
@@ -252,9 +294,15 @@ func c17Eval(cs *Case, ctx *EvalCtx) []Violation {
 			add("not-a-number", fmt.Sprintf("printed value %q is not a number", l))
 			return vs
 		}
-		want := float64(nows[ex.PrintOrder[k]]) / 1000.0
-		if math.IsNaN(v) || math.Abs(v-want) >= 1.0 {
-			add("wrong-time", fmt.Sprintf("print %d (call %d) shows %v but the wall clock stood at %v s (start %d ms, steps %v)", k, ex.PrintOrder[k], v, want, cs.Runs[0].Cfg.ClockStartMs, cs.Runs[0].Cfg.ClockStepsMs))
+		r := refs[ex.PrintOrder[k]]
+		okv := !math.IsNaN(v) && math.Abs(v-float64(r.at)/1000.0) < 1.0
+		for _, n := range r.reads {
+			if !math.IsNaN(v) && math.Abs(v-float64(n)/1000.0) < 1.0 {
+				okv = true
+			}
+		}
+		if !okv {
+			add("wrong-time", fmt.Sprintf("print %d (call %d) shows %v but the wall clock stood at %v s when ক্লক was called (readings taken during the call: %v ms; start %d ms, steps %v, %d us per step)", k, ex.PrintOrder[k], v, float64(r.at)/1000.0, r.reads, cs.Runs[0].Cfg.ClockStartMs, cs.Runs[0].Cfg.ClockStepsMs, cs.Runs[0].Cfg.ClockTickUs))
 			return vs
 		}
 	}
